@@ -423,6 +423,10 @@ func ruleTK(parts ...string) Rule {
 							if rs, ok := blk.List[idx-1].(*ast.RangeStmt); ok {
 								digits = asciiDigitLoop(info, rs)
 							}
+							// the same test written with strings.IndexFunc / ContainsFunc and a predicate
+							if ifs, ok := blk.List[idx-1].(*ast.IfStmt); ok && ifs.Init == nil && ifs.Else == nil {
+								digits = c.notDigitSearch(info, ifs)
+							}
 						}
 					}
 					if one && lit && digits {
@@ -504,6 +508,109 @@ func ruleTK(parts ...string) Rule {
 				})
 			}
 		}}
+}
+
+// notDigitSearch recognises
+//
+//	if strings.IndexFunc(s, notDigit) != -1 { return WORD }     (or >= 0, or strings.ContainsFunc)
+//
+// where notDigit - a function literal or a function of the package - is
+// `return r < '0' || r > '9'` in any spelling.
+func (c *Ctx) notDigitSearch(info *types.Info, ifs *ast.IfStmt) bool {
+	returnsWord := false
+	for _, st := range ifs.Body.List {
+		if rt, ok := st.(*ast.ReturnStmt); ok && len(rt.Results) == 1 && exprStr(rt.Results[0]) == "WORD" {
+			returnsWord = true
+		}
+	}
+	if !returnsWord {
+		return false
+	}
+	var call *ast.CallExpr
+	cond := ast.Unparen(ifs.Cond)
+	if be, ok := cond.(*ast.BinaryExpr); ok {
+		cl, isCall := ast.Unparen(be.X).(*ast.CallExpr)
+		v, isConst := constInt(info, be.Y)
+		if isCall && isConst && calleeName(info, cl) == "strings.IndexFunc" && ((be.Op == token.NEQ && v == -1) || (be.Op == token.GEQ && v == 0) || (be.Op == token.GTR && v == -1)) {
+			call = cl
+		}
+	} else if cl, ok := cond.(*ast.CallExpr); ok && calleeName(info, cl) == "strings.ContainsFunc" {
+		call = cl
+	}
+	if call == nil || len(call.Args) != 2 {
+		return false
+	}
+	// the predicate's body and rune parameter
+	var body *ast.BlockStmt
+	var ftype *ast.FuncType
+	var pinfo = info
+	switch p := ast.Unparen(call.Args[1]).(type) {
+	case *ast.FuncLit:
+		body, ftype = p.Body, p.Type
+	default:
+		var obj types.Object
+		switch q := p.(type) {
+		case *ast.Ident:
+			obj = info.Uses[q]
+		case *ast.SelectorExpr:
+			obj = info.Uses[q.Sel]
+		}
+		if fo, ok := obj.(*types.Func); ok {
+			if h := c.P.FuncOf(fo); h != nil && h.Body != nil {
+				body, ftype, pinfo = h.Body, h.Type, h.Info()
+			}
+		}
+	}
+	if body == nil || len(body.List) != 1 || ftype.Params == nil || len(ftype.Params.List) != 1 || len(ftype.Params.List[0].Names) != 1 {
+		return false
+	}
+	r := ftype.Params.List[0].Names[0].Name
+	ret, ok := body.List[0].(*ast.ReturnStmt)
+	if !ok || len(ret.Results) != 1 {
+		return false
+	}
+	e := ast.Unparen(ret.Results[0])
+	neg := false
+	if u, ok := e.(*ast.UnaryExpr); ok && u.Op == token.NOT {
+		neg, e = true, ast.Unparen(u.X)
+	}
+	be, ok := e.(*ast.BinaryExpr)
+	if !ok {
+		return false
+	}
+	lo, hi := false, false
+	check := func(x ast.Expr, outside bool) {
+		b, ok := ast.Unparen(x).(*ast.BinaryExpr)
+		if !ok {
+			return
+		}
+		xv, xok := constInt(pinfo, b.X)
+		yv, yok := constInt(pinfo, b.Y)
+		if outside { // r < '0', '0' > r, r > '9', '9' < r
+			switch {
+			case yok && exprStr(b.X) == r && yv == '0' && b.Op == token.LSS, xok && exprStr(b.Y) == r && xv == '0' && b.Op == token.GTR:
+				lo = true
+			case yok && exprStr(b.X) == r && yv == '9' && b.Op == token.GTR, xok && exprStr(b.Y) == r && xv == '9' && b.Op == token.LSS:
+				hi = true
+			}
+		} else { // '0' <= r, r >= '0', r <= '9', '9' >= r
+			switch {
+			case xok && exprStr(b.Y) == r && xv == '0' && b.Op == token.LEQ, yok && exprStr(b.X) == r && yv == '0' && b.Op == token.GEQ:
+				lo = true
+			case yok && exprStr(b.X) == r && yv == '9' && b.Op == token.LEQ, xok && exprStr(b.Y) == r && xv == '9' && b.Op == token.GEQ:
+				hi = true
+			}
+		}
+	}
+	switch {
+	case be.Op == token.LOR && !neg:
+		check(be.X, true)
+		check(be.Y, true)
+	case be.Op == token.LAND && neg:
+		check(be.X, false)
+		check(be.Y, false)
+	}
+	return lo && hi
 }
 
 func asciiDigitLoop(info *types.Info, rs *ast.RangeStmt) bool {
@@ -3372,6 +3479,236 @@ func ruleRC8() Rule {
 			}
 			if n == 0 {
 				rr.Unkp(c.P, "parser|state restarting the pipeline after subst()", 0, "no state returns lexPipeline under subst(): idiom not recognised")
+			}
+		}}
+}
+
+// ---------------------------------------------------------------------------
+// LP1: helpers of the arithmetic reductions have no unbounded loop.
+
+func ruleLP1() Rule {
+	return Rule{ID: "LP1", Kind: "must-not", Floor: 1,
+		Doc: "the hand-written functions the arithmetic reduce actions call (expand, calculate, … in the grammar's tail) run to completion: every loop in them is a range loop or a counted loop, and none of them calls itself. A loop that follows data (a variable whose value names another variable …) spins for ever on a cycle, inside yyParse, where Eval's recover() cannot help",
+		Run: func(c *Ctx, rr *core.RuleResult) {
+			gen := ""
+			for _, g := range c.P.Gen {
+				if g.Pkg == "interp" {
+					gen = g.GoFile
+				}
+			}
+			n := 0
+			for _, f := range c.funcsOfPkg("interp", false) {
+				if f.Decl == nil || c.P.Fset.Position(f.Pos()).Filename != gen || f.Short == "(*ExecEnv).Eval" || f.Short == "init" {
+					continue
+				}
+				info := f.Info()
+				n++
+				bad := false
+				f.OwnNodes(func(x ast.Node) bool {
+					switch s := x.(type) {
+					case *ast.ForStmt:
+						if !countedLoop(info, s) {
+							bad = true
+							rr.Bad(f, f.Name+"|loop", s.Pos(), "a loop that is neither a range nor a counted loop in a helper of the arithmetic reductions: its termination depends on the data (e.g. on variable values forming no cycle)")
+						}
+					case *ast.CallExpr:
+						if fo := core.StaticCallee(info, s); fo != nil && c.P.FuncOf(fo) == f.Root() {
+							bad = true
+							rr.Bad(f, f.Name+"|recursion", s.Pos(), "a helper of the arithmetic reductions calls itself: its termination depends on the data")
+						}
+					}
+					return true
+				})
+				if !bad {
+					rr.OK(f, f.Name+"|bounded", f.Pos(), "bounded", "no data-driven loop, no self-call")
+				}
+			}
+			if n == 0 {
+				rr.Unkp(c.P, "interp|grammar tail", 0, "no hand-written function in the arithmetic grammar's file")
+			}
+		}}
+}
+
+// ---------------------------------------------------------------------------
+// PS2: positions are stored as they are given.
+
+func rulePS2() Rule {
+	return Rule{ID: "PS2", Kind: "must-not", Floor: 2,
+		Doc: "ast.Pos is a pair of unbounded integers: its constructor and its accessors neither mask, shift, clamp nor narrow what they are given (no &, <<, >>, &^, no conversion to a sized integer, no comparison with a numeric limit). Line 1000000 and column 5000 are positions like any other: the here-document reader looks for `Col() == 1`, the printer compares End() with Pos()",
+		Run: func(c *Ctx, rr *core.RuleResult) {
+			pk := c.P.Pkgs["ast"]
+			if pk == nil {
+				rr.Unkp(c.P, "ast", 0, "package ast not loaded")
+				return
+			}
+			posT, _ := pk.Types.Scope().Lookup("Pos").(*types.TypeName)
+			if posT == nil {
+				rr.Unkp(c.P, "ast.Pos", 0, "type ast.Pos not found")
+				return
+			}
+			// representation: only plain int fields
+			key := "ast.Pos|representation"
+			if st, ok := posT.Type().Underlying().(*types.Struct); ok {
+				okRep := st.NumFields() >= 2
+				for i := 0; i < st.NumFields(); i++ {
+					if b, ok := st.Field(i).Type().Underlying().(*types.Basic); !ok || b.Kind() != types.Int {
+						okRep = false
+					}
+				}
+				if okRep {
+					rr.OKp(c.P, key, posT.Pos(), "ints", "line and column are plain ints")
+				} else {
+					rr.Badp(c.P, key, posT.Pos(), "ast.Pos is not a struct of plain ints: a narrower or packed representation cannot hold every line and column")
+				}
+			} else {
+				rr.Badp(c.P, key, posT.Pos(), "ast.Pos is not a struct of plain ints (a packed representation): lines and columns beyond its bit fields wrap around or saturate, e.g. column 4097 reads back as 1")
+			}
+			for _, f := range c.funcsOfPkg("ast", false) {
+				if f.Decl == nil {
+					continue
+				}
+				// the constructor and the methods of Pos
+				isPosFn := false
+				if f.Decl.Recv != nil && len(f.Decl.Recv.List) == 1 {
+					if t := f.Info().Types[f.Decl.Recv.List[0].Type].Type; t != nil && strings.TrimPrefix(namedTypeName(t), "*") == "ast.Pos" {
+						isPosFn = true
+					}
+				} else if f.Type.Results != nil && len(f.Type.Results.List) == 1 && f.Obj != nil && f.Obj.Exported() {
+					if t := f.Info().Types[f.Type.Results.List[0].Type].Type; t != nil && namedTypeName(t) == "ast.Pos" {
+						isPosFn = true
+					}
+				}
+				if !isPosFn {
+					continue
+				}
+				info := f.Info()
+				bad := ""
+				f.OwnNodes(func(x ast.Node) bool {
+					switch e := x.(type) {
+					case *ast.BinaryExpr:
+						switch e.Op {
+						case token.AND, token.OR, token.XOR, token.SHL, token.SHR, token.AND_NOT:
+							if tv, ok := info.Types[e]; ok && tv.Value == nil {
+								bad = "bit operation `" + exprStr(e) + "`"
+							}
+						}
+					case *ast.CallExpr:
+						if tv, ok := info.Types[e.Fun]; ok && tv.IsType() && len(e.Args) == 1 {
+							if b, ok := tv.Type.Underlying().(*types.Basic); ok && b.Info()&types.IsInteger != 0 && b.Kind() != types.Int {
+								if av, ok := info.Types[e.Args[0]]; ok && av.Value == nil {
+									bad = "narrowing conversion `" + exprStr(e) + "`"
+								}
+							}
+						}
+					}
+					return true
+				})
+				k := f.Name + "|stores and returns what it is given"
+				if bad == "" {
+					rr.OK(f, k, f.Pos(), "projection", "no masking, shifting or narrowing")
+				} else {
+					rr.Bad(f, k, f.Pos(), bad+" in a position constructor/accessor: large lines or columns are not kept as they are")
+				}
+			}
+		}}
+}
+
+// ---------------------------------------------------------------------------
+// BQ1: only the closing back-quote closes a back-quoted substitution.
+
+func ruleBQ1() Rule {
+	return Rule{ID: "BQ1", Kind: "must", Floor: 2,
+		Doc: "the lexer of a back-quoted command substitution presents the substitution to the grammar as `( … )`: it returns the token ')' when it meets the closing back-quote. The input can spell ')' too, so (a) where the scanner turns the back-quote into ')' it sets a flag of the lexer, and (b) the clause of lexToken that ends a substitution at its outermost ')' reads that flag for the back-quote kind - otherwise \"`echo)\" is accepted as `echo`",
+		Run: func(c *Ctx, rr *core.RuleResult) {
+			raw := c.mustFn(rr, "parser.(*lexer).scanRawToken")
+			lt := c.mustFn(rr, "parser.(*lexer).lexToken")
+			cmdSubst := c.fieldVar("parser", "lexer", "cmdSubst")
+			if raw == nil || lt == nil || cmdSubst == nil {
+				return
+			}
+			info := raw.Info()
+			// (a) `return ')'` inside the clause for '`'
+			var flag *types.Var
+			n := 0
+			raw.OwnNodes(func(x ast.Node) bool {
+				ret, ok := x.(*ast.ReturnStmt)
+				if !ok || len(ret.Results) != 1 {
+					return true
+				}
+				if v, ok := constInt(info, ret.Results[0]); !ok || v != ')' {
+					return true
+				}
+				cc := enclosingCase(c.P, ret)
+				isBQ := false
+				if cc != nil {
+					for _, e := range cc.List {
+						if v, ok := constInt(info, e); ok && v == '`' {
+							isBQ = true
+						}
+					}
+				}
+				if !isBQ {
+					return true
+				}
+				n++
+				key := raw.Name + "|back-quote returned as ')'"
+				// the statement before the return assigns true to a field of the lexer
+				var set *types.Var
+				if blk, ok := c.P.Parent(ret).(*ast.BlockStmt); ok {
+					if i := stmtIndex(c.P, blk.List, ret); i > 0 {
+						if as, ok := blk.List[i-1].(*ast.AssignStmt); ok && len(as.Lhs) == 1 && len(as.Rhs) == 1 {
+							if tv, ok := info.Types[as.Rhs[0]]; ok && tv.Value != nil && tv.Value.String() == "true" {
+								set = core.FieldOf(info, as.Lhs[0])
+							}
+						}
+					}
+				}
+				if set != nil {
+					flag = set
+					rr.OK(raw, key, ret.Pos(), "flagged", "the scanner records that this ')' stands for the closing back-quote ("+set.Name()+")")
+				} else {
+					rr.Bad(raw, key, ret.Pos(), "the closing back-quote is handed to the grammar as ')' without any record that it was a back-quote: a ')' written in the input closes the substitution just as well (\"`echo)\" is accepted)")
+				}
+				return true
+			})
+			if n == 0 {
+				rr.Unk(raw, raw.Name+"|back-quote returned as ')'", raw.Pos(), "the raw scanner does not return ')' under case '`': idiom not recognised")
+				return
+			}
+			// (b) the closer clause of lexToken tests the flag
+			li := lt.Info()
+			key := lt.Name + "|closer of a back-quoted substitution"
+			reads := false
+			lt.OwnNodes(func(x ast.Node) bool {
+				if se, ok := x.(*ast.SelectorExpr); ok && flag != nil && core.FieldOf(li, se) == flag {
+					for _, gd := range guardsOf(c.P, se, nil) {
+						ast.Inspect(gd.cond, func(y ast.Node) bool {
+							if s2, ok := y.(*ast.SelectorExpr); ok && core.FieldOf(li, s2) == cmdSubst {
+								reads = true
+							}
+							return true
+						})
+					}
+					// or in the same condition
+					for p := c.P.Parent(se); p != nil; p = c.P.Parent(p) {
+						if e, ok := p.(ast.Expr); ok {
+							ast.Inspect(e, func(y ast.Node) bool {
+								if s2, ok := y.(*ast.SelectorExpr); ok && core.FieldOf(li, s2) == cmdSubst {
+									reads = true
+								}
+								return true
+							})
+						} else {
+							break
+						}
+					}
+				}
+				return true
+			})
+			if reads {
+				rr.OK(lt, key, lt.Pos(), "tested", "a ')' ends a back-quoted substitution only if the scanner produced it from the closing back-quote")
+			} else {
+				rr.Bad(lt, key, lt.Pos(), "lexToken ends a substitution at any outermost ')' without asking whether, in a back-quoted substitution, it came from the closing back-quote")
 			}
 		}}
 }
